@@ -38,7 +38,7 @@ def run_case(docs, world, style=('flow', 0, 0), timeout=5, extra=None):
             try:
                 root = build_root(docs, *style)
                 obs['nodes'] = [] if root is None else [
-                    {'p': NodePath.join_path(list(p)), 'kind': dyn_kind(n) or ('scalar' if not isinstance(n, ComposedNode) else 'comp'),
+                    {'p': NodePath.join_path(list(p)), 'pt': json.dumps([sc_json(k) for k in p]), 'kind': dyn_kind(n) or ('scalar' if not isinstance(n, ComposedNode) else 'comp'),
                      'safe': bool(n.ayns.safe), 'v': (sc_json(n.ayns.native_value) if type(n).__name__.startswith('ConfigScalar') else None),
                      'text': str(n) if dyn_kind(n) in ('xref', 'eval', 'fstr', 'import') else None}
                     for p, n in tree_nodes(root)]
